@@ -286,6 +286,11 @@ func cmdPlan(args []string) {
 		return engPair{engine.NewDistributedEngine(engine.Opts{EngineOpts: eo, DebugWriter: io.Discard}, api.NewStaticEndpoints(remotes)), reg}
 	}
 	engDist := mkDist()
+	engDistFb := func() queryMaker {
+		ropts := engine.Opts{EngineOpts: promOpts(EngineCfg{})}
+		remotes := []api.RemoteEngine{engine.NewLocalEngine(ropts, store), engine.NewLocalEngine(ropts, NewStore(nil))}
+		return engine.NewDistributedEngine(engine.Opts{EngineOpts: promOpts(EngineCfg{})}, api.NewStaticEndpoints(remotes))
+	}()
 	ref := promql.NewEngine(promOpts(EngineCfg{}))
 	start0 := start
 	for _, wmode := range []int{0, 1, 2} {
@@ -424,6 +429,37 @@ func cmdPlan(args []string) {
 				}
 				cases = append(cases, pc)
 				obs[k] = pc
+			}
+			// an unsupported construct that the distributed optimizer hands to remote engines which do have
+			// the fallback: answered by their Prometheus engines and put together by the coordinator - exactly
+			// as the reference engine answers the whole query (every fifth query with such a construct)
+			if obs[0].Outcome == "Fallback" && qi%5 == 0 && !tieSensitive(qs) {
+				var dq, rq promql.Query
+				var derr, rerr error
+				if rng {
+					dq, derr = engDistFb.NewRangeQuery(store, nil, qs, start, end, step)
+					rq, rerr = ref.NewRangeQuery(store, nil, qs, start, end, step)
+				} else {
+					dq, derr = engDistFb.NewInstantQuery(store, nil, qs, end)
+					rq, rerr = ref.NewInstantQuery(store, nil, qs, end)
+				}
+				if derr == nil && rerr == nil {
+					a := canonResult(dq.Exec(context.Background()))
+					b := canonResult(rq.Exec(context.Background()))
+					if d := diffCanon(a, b, false); d != "" && (a.Kind == "error") == (b.Kind == "error") {
+						last := &cases[len(cases)-1]
+						if last.Oracle == "" {
+							last.Oracle = "distributed engine (remote engines with fallback): result differs from the reference engine: " + d
+						}
+					}
+					execCompared++
+				}
+				if dq != nil {
+					dq.Close()
+				}
+				if rq != nil {
+					rq.Close()
+				}
 			}
 			// the model sees the preprocessed, optimized AST (fresh parse: planning mutates)
 			var lp parser.Expr
